@@ -188,6 +188,9 @@ def gen_c04(r, tier):
                  'muts': [m for cs in cases for m in cs['muts']]}
             fault_targets = [('ref', j) for j in range(n_files)] + \
                             [('actual', j) for j in range(n_files)]
+        if entry != 'string' and r.chance(0.35):
+            a['stamp'] = r.weighted([(3, 'same'), (1, 'ref_newer'),
+                                     (1, 'actual_newer')])
         if r.chance(0.45):
             t = r.pick(fault_targets)
             a['storage_fault'] = dict(gen_storage_fault(r, None),
@@ -313,6 +316,9 @@ def gen_assert(r, clients, counter, regen_biased=False):
             op['actual_parquet'] = 'act%d.parquet' % i
     # does a reference exist beforehand?
     op['ref_exists'] = r.chance(0.8)
+    if 'actual_files' in op and r.chance(0.25):
+        op['stamp'] = r.weighted([(3, 'same'), (1, 'ref_newer'),
+                                  (1, 'actual_newer')])
     return op
 
 
@@ -846,6 +852,7 @@ def run_assert(ctx, op):
                 with io.open(target[j], 'rb') as fh:
                     pristine = (target[j], fh.read())
             sf_fired = apply_storage_fault(ctx, sf, target[j])
+    apply_stamp(ctx, op, rpaths, apaths)
     mode = ctx.model.lookup(op['kind'])
     roots = [W.path(d) for d in ('ref', 'fail', 'systmp', 'cwd', 'canary',
                                  'home', 'tmp', 'data')]
@@ -910,6 +917,7 @@ def run_assert(ctx, op):
                     sf2['pos'] = (off + 0.3 * max(1, len(ls[k]) - 1)) / tot \
                         if k < len(ls) else 0.0
                 fired = apply_storage_fault(ctx, sf2, path)
+                apply_stamp(ctx, op, rpaths, apaths)
                 ctx.seam.begin_op(None, None)
                 o2, e2 = call_assert(ctx, op, rpaths, apaths)
                 ctx.stats['checks']['fault_positions_enumerated'] += 1
@@ -917,6 +925,36 @@ def run_assert(ctx, op):
     elif prop == 'C15':
         check_c15(ctx, op, mode, outcome, exc, delta, log, rpaths, apaths,
                   before, after)
+
+
+STAMP0 = 1600000000
+
+
+def apply_stamp(ctx, op, rpaths, apaths):
+    """Simulated file clock: the modification times the stored files carry
+    when the check runs (coarse-granularity filesystems, cp -p, restored
+    backups: equal stamps on different content; or either side newer)."""
+    st = op.get('stamp')
+    if not st or not apaths:
+        return
+    tr, ta = {'same': (STAMP0, STAMP0), 'ref_newer': (STAMP0 + 7, STAMP0),
+              'actual_newer': (STAMP0, STAMP0 + 7)}[st]
+    n = 0
+    for p in rpaths:
+        if os.path.isfile(p):
+            os.utime(p, (tr, tr))
+            n += 1
+    for p in apaths:
+        if os.path.isfile(p):
+            os.utime(p, (ta, ta))
+            n += 1
+    if n:
+        ctx.stats['faults']['mtime_' + st] += 1
+        if st == 'same' and len(rpaths) == len(apaths) and any(
+                os.path.isfile(a) and os.path.isfile(b)
+                and os.path.getsize(a) == os.path.getsize(b)
+                for a, b in zip(rpaths, apaths)):
+            ctx.stats['probes']['same_size_same_mtime_pair'] += 1
 
 
 def enumerate_fault_sites(ctx, op, rpaths, apaths, nsites):
